@@ -11,6 +11,8 @@
                                    a branch when the same model state was already expanded with at least the
                                    remaining depth (every explored transition still occurs in some history).
                                    Histories are printed one operation per line, terminated by `reset`.
+   driver enumg MAXS MAXE DEPTH FINS CAP SHARD NSHARDS   the memoised enumeration with one global table: every shard walks the
+                                   whole tree and prints the histories whose index is SHARD modulo NSHARDS
    driver gen SEED COUNT NOPS MAXBOX PROFILE   COUNT seeded random histories of up to NOPS operations keeping at most
                                    MAXBOX strong boxes; PROFILE nores (no resurrecting finalizer) | res
    Everything that decides behaviour is the extracted `step`; this file only parses, prints and enumerates. *)
@@ -107,6 +109,17 @@ let stats (sn, sm, su, sv) (s : state) =
   Printf.sprintf "%d %d %d %d %d" (List.length s.strongs) (List.length s.weaks) (List.length s.wmaps)
     (nodes * sn + maps * sm + eu * su + ev * sv) (int_of_nat s.colls)
 
+(* `reset` of the harness, expressed with the extracted operations only: Drop / DropE of every external handle,
+   finalizers switched off (the harness payload checks its TEARDOWN flag), two collections *)
+let teardown (s : state) : state =
+  let s = List.fold_left (fun s a -> if s.poisoned then s else fst (step s (Drop a))) s (List.sort compare s.ext_s) in
+  let s = List.fold_left (fun s e -> if s.poisoned then s else fst (step s (DropE e))) s (List.sort compare s.ext_e) in
+  if s.poisoned then s else begin
+    let s = { s with strongs = List.map (fun b -> { b with s_fin = O }) s.strongs } in
+    let s = fst (step s Collect) in
+    if s.poisoned then s else fst (step s Collect)
+  end
+
 let split_ws (l : string) = List.filter (fun x -> x <> "") (String.split_on_char ' ' (String.trim l))
 
 let run_mode sizes =
@@ -118,7 +131,18 @@ let run_mode sizes =
        let w = split_ws line in
        (match w with
         | [] -> ()
-        | ["reset"] -> st := init; dead := false; Buffer.add_string buf "reset | 0 0 0 0 0\n"
+        | ["reset"] ->
+            (* the harness drops every handle it holds, switches the payload finalizers to log-only (TEARDOWN)
+               and collects twice; the statistics it prints count collections from this point (= 0) *)
+            if !dead then Buffer.add_string buf "reset | 0 0 0 0 0\n"
+            else begin
+              let s1 = teardown !st in
+              let z = { s1 with colls = O } in
+              Buffer.add_string buf ("reset | " ^ stats sizes z);
+              if s1.poisoned then Buffer.add_string buf " POISON";
+              Buffer.add_char buf '\n'
+            end;
+            st := init; dead := false
         | ["quit"] -> raise End_of_file
         | "stress" :: _ -> Buffer.add_string buf ("ok | " ^ stats sizes !st ^ "\n")
         | _ ->
@@ -199,16 +223,19 @@ let candidates (s : state) maxs maxe fins cap : op list =
   add Collect;
   List.rev !acc
 
-let enum_mode maxs maxe depth memo fins cap shard nshards =
+let enum_mode ?(global = false) maxs maxe depth memo fins cap shard nshards =
   let seen : (string, int) Hashtbl.t = Hashtbl.create 100000 in
   let histories = ref 0 and edges = ref 0 and poisoned = ref 0 in
   let out = Buffer.create 65536 in
   let emit (rev_ops : op list) =
     if rev_ops <> [] then begin
-      incr histories;
-      List.iter (fun o -> Buffer.add_string out (show_op o); Buffer.add_char out '\n') (List.rev rev_ops);
-      Buffer.add_string out "reset\n";
-      if Buffer.length out > 60000 then (print_string (Buffer.contents out); Buffer.clear out)
+      (* global mode: every process walks the whole (memoised) tree and prints its share of the histories *)
+      if (not global) || (!histories mod nshards = shard) then begin
+        List.iter (fun o -> Buffer.add_string out (show_op o); Buffer.add_char out '\n') (List.rev rev_ops);
+        Buffer.add_string out "reset\n";
+        if Buffer.length out > 60000 then (print_string (Buffer.contents out); Buffer.clear out)
+      end;
+      incr histories
     end in
   let rec dfs (s : state) rev_ops left =
     if left = 0 then emit rev_ops
@@ -244,7 +271,7 @@ let enum_mode maxs maxe depth memo fins cap shard nshards =
             incr counter;
             if mine then (incr poisoned; emit (o :: rev_ops))
           end else prefixes s' (o :: rev_ops) (k - 1)) (candidates s maxs maxe fins cap) in
-  prefixes init [] plen;
+  if global then dfs init [] depth else prefixes init [] plen;
   print_string (Buffer.contents out);
   Printf.eprintf "enum shard %d/%d: histories=%d edges=%d states=%d poisoned_leaves=%d\n" shard nshards !histories !edges (Hashtbl.length seen) !poisoned
 
@@ -352,40 +379,47 @@ let gen_mode seed count nops maxbox profile =
       else begin
         let w_alloc = if nlive >= maxbox then 0 else if nh < target then 14 else 4 in
         let w_drop = if nh > target then 14 else 5 in
-        let cands = candidates !st max_int max_int [0] max_int in
-        let weight = function
-          | Alloc _ | AllocCyclic _ | WmNew -> w_alloc
-          | Drop _ -> w_drop | DropE _ -> 5
-          | Link _ -> 12 | Unlink _ -> 5 | Load _ -> 4 | Clone _ -> 2 | CloneE _ -> 1
-          | MkWeak _ -> 3 | MkEph _ -> 4 | StoreE _ -> 3 | UnstoreE _ -> 2 | LoadE _ -> 2
-          | Upgrade _ -> 4 | EphValue _ -> 3 | WmInsert _ -> 5 | WmRemove _ -> 2 | WmGet _ -> 2
-          | Read _ -> 2 | Collect -> 0 in
-        (* choose a kind by weight, then an instance of that kind uniformly *)
-        let kind = function
-          | Alloc _ -> 0 | AllocCyclic _ -> 1 | WmNew -> 2 | Drop _ -> 3 | DropE _ -> 4 | Link _ -> 5 | Unlink _ -> 6
-          | Load _ -> 7 | Clone _ -> 8 | CloneE _ -> 9 | MkWeak _ -> 10 | MkEph _ -> 11 | StoreE _ -> 12
-          | UnstoreE _ -> 13 | LoadE _ -> 14 | Upgrade _ -> 15 | EphValue _ -> 16 | WmInsert _ -> 17
-          | WmRemove _ -> 18 | WmGet _ -> 19 | Read _ -> 20 | Collect -> 21 in
-        let kinds = Array.make 22 [] in
-        List.iter (fun o -> let k = kind o in kinds.(k) <- o :: kinds.(k)) cands;
-        let total = ref 0 in
-        Array.iter (fun l -> match l with [] -> () | o :: _ -> total := !total + weight o) kinds;
-        if !total = 0 then doop (Alloc O)
-        else begin
-          let x = ref (Random.int !total) and chosen = ref None in
-          Array.iter (fun l -> match l with
-              | [] -> ()
-              | o :: _ -> if !chosen = None then (let w = weight o in if !x < w then chosen := Some l else x := !x - w)) kinds;
-          match !chosen with
-          | Some l ->
-              let o = pick l in
-              let o = match o with
-                | Alloc _ -> Alloc (nat_of_int (fins ()))
-                | AllocCyclic _ -> AllocCyclic (nat_of_int (fins ()))
-                | o -> o in
-              doop o
-          | None -> doop Collect
-        end
+        (* choose a kind by weight, then sample an instance of that kind from the model state (no enumeration
+           of all candidates: with 200 boxes there are tens of thousands); an impossible kind is re-drawn *)
+        let hs = Array.of_list (hs ()) and he = Array.of_list (he ()) in
+        let nodes = Array.of_list (List.filter is_node (Array.to_list hs)) in
+        let maps = Array.of_list (List.filter (fun a -> not (is_node a)) (Array.to_list hs)) in
+        let pa a = a.(Random.int (Array.length a)) in
+        let some a = Array.length a > 0 in
+        let kinds = [| (w_alloc, 0); (w_alloc, 1); (w_alloc, 2); (w_drop, 3); (5, 4); (12, 5); (5, 6); (4, 7); (2, 8); (1, 9);
+                       (3, 10); (4, 11); (3, 12); (2, 13); (2, 14); (4, 15); (3, 16); (5, 17); (2, 18); (2, 19); (2, 20) |] in
+        let total = Array.fold_left (fun a (w, _) -> a + w) 0 kinds in
+        let draw () =
+          let x = ref (Random.int total) and k = ref (-1) in
+          Array.iter (fun (w, i) -> if !k < 0 then (if !x < w then k := i else x := !x - w)) kinds; !k in
+        let kids_of a = match box a with Some b -> b.s_kids | None -> [] in
+        let ephs_of a = match box a with Some b -> b.s_ephs | None -> [] in
+        let inst k : op option =
+          match k with
+          | 0 -> Some (Alloc (nat_of_int (fins ())))
+          | 1 -> Some (AllocCyclic (nat_of_int (fins ())))
+          | 2 -> Some WmNew
+          | 3 -> if some hs then Some (Drop (pa hs)) else None
+          | 4 -> if some he then Some (DropE (pa he)) else None
+          | 5 -> if some nodes then Some (Link (pa nodes, pa hs)) else None
+          | 6 | 7 -> if some nodes then (let a = pa nodes in match kids_of a with [] -> None
+                                         | l -> let x = pick l in Some (if k = 6 then Unlink (a, x) else Load (a, x))) else None
+          | 8 -> if some hs then Some (Clone (pa hs)) else None
+          | 9 -> if some he then Some (CloneE (pa he)) else None
+          | 10 -> if some nodes then Some (MkWeak (pa nodes)) else None
+          | 11 -> if some nodes then Some (MkEph (pa nodes, pa nodes)) else None
+          | 12 -> if some nodes && some he then Some (StoreE (pa nodes, pa he)) else None
+          | 13 | 14 -> if some nodes then (let a = pa nodes in match ephs_of a with [] -> None
+                                           | l -> let x = pick l in Some (if k = 13 then UnstoreE (a, x) else LoadE (a, x))) else None
+          | 15 -> if some he then Some (Upgrade (pa he)) else None
+          | 16 -> if some he then Some (EphValue (pa he)) else None
+          | 17 -> if some maps && some nodes then Some (WmInsert (pa maps, pa nodes, pa nodes)) else None
+          | 18 -> if some maps && some nodes then Some (WmRemove (pa maps, pa nodes)) else None
+          | 19 -> if some maps && some nodes then Some (WmGet (pa maps, pa nodes)) else None
+          | _ -> if some nodes then Some (Read (pa nodes)) else None in
+        let rec go tries = if tries = 0 then doop (Alloc O) else
+            (match inst (draw ()) with Some o -> doop o | None -> go (tries - 1)) in
+        if total = 0 then doop Collect else go 30
       end
     done;
     emit_raw "reset"; flush_if ()
@@ -398,6 +432,10 @@ let () =
   | [_; "enum"; maxs; maxe; depth; memo; fins; cap; shard; nshards] ->
       let fins = List.map int_of_string (String.split_on_char ',' fins) in
       enum_mode (int_of_string maxs) (int_of_string maxe) (int_of_string depth) (memo = "1") fins (int_of_string cap)
+        (int_of_string shard) (int_of_string nshards)
+  | [_; "enumg"; maxs; maxe; depth; fins; cap; shard; nshards] ->
+      let fins = List.map int_of_string (String.split_on_char ',' fins) in
+      enum_mode ~global:true (int_of_string maxs) (int_of_string maxe) (int_of_string depth) true fins (int_of_string cap)
         (int_of_string shard) (int_of_string nshards)
   | [_; "gen"; seed; count; nops; maxbox; profile] ->
       gen_mode (int_of_string seed) (int_of_string count) (int_of_string nops) (int_of_string maxbox) profile
